@@ -28,6 +28,8 @@ def scenarios(tier, rng):
         "burst": [{"rec": [["bmp", 1]], "nowait": True}, {"rec": [["bmp", 2]], "nowait": True}, {"rec": [["bmp3", 3]], "nowait": True}, {"rec": [["bmp", 6]], "nowait": True}],
         # silence between records: the thread has to stay blocked in its wait, however long, and pick up what comes next
         "paused": [{"rec": [["bmp", 1]]}, {"pause": 700}, {"rec": [["bmp", 2]]}, {"pause": 1300}, {"rec": [["bmp", 3]]}],
+        # an update of a kind the library does not implement in front of the bitmap update of the same PDU
+        "other_then_bitmap": [{"rec": [["obmp", 1], ["bmp", 2]]}, {"rec": [["obmp", 3]]}],
     }
     out = []
     k = 0
@@ -59,6 +61,11 @@ def scenarios(tier, rng):
         for m in ("ultimatum", "abrupt"):
             out.append({"id": "nla%d" % k, "pack": pn + "_nla", "nla": True, "mode": m, "input": 0, "steps": json.loads(json.dumps(packs[pn])) + [{"end": m}]}); k += 1
     out.append({"id": "nla%d" % k, "pack": "end_in_record_nla", "nla": True, "mode": "in_record_ultimatum", "input": 0, "steps": [{"end": "in_record_ultimatum", "with": [["bmp", 1], ["bmp", 2]]}]}); k += 1
+    # a GUI thread that takes the shared mutex as often as it can while records of 250 PDUs arrive: the receive thread may
+    # have to WAIT for the mutex, never conclude from a busy mutex that nothing is pending
+    for rep in range(1 if tier == "quick" else 4):
+        out.append({"id": "busy%d" % k, "pack": "contended", "mode": "ultimatum", "input": 0, "quiet_ms": 1500,
+                    "steps": [{"busy": True}] + [{"rec": [["bmps", 1 + 250 * r, 250]]} for r in range(4 if tier == "quick" else 12)] + [{"end": "ultimatum"}]}); k += 1
     for pn, steps in packs.items():
         for m in MODES:
             for inp in ([0] if tier == "quick" and pn not in ("two_in_one", "mixed") else [0, 5]):
@@ -88,7 +95,7 @@ def scenarios(tier, rng):
 
 def sent_so_far(r):
     evs = [json.loads(x) for x in r["run_events"]]
-    return [i for e in evs[:r["event_index_in_run"] + 1] if e["ev"] == "srv_record" for p in e["pdus"] if p[0] in ("bmp", "part2", "bmp3") for i in ([p[1], p[1] + 1, p[1] + 2] if p[0] == "bmp3" else [p[1]])]
+    return [i for e in evs[:r["event_index_in_run"] + 1] if e["ev"] == "srv_record" for p in e["pdus"] if p[0] in ("bmp", "part2", "bmp3", "obmp") for i in ([p[1], p[1] + 1, p[1] + 2] if p[0] == "bmp3" else [p[1]])]
 
 
 def selftest20(wd, lines):
@@ -164,7 +171,7 @@ def run(tier, seed):
             elif ev.get("ev") == "quiet":
                 key = ("gui:order:%s" if sorted(ev.get("fwd", [])) == sorted(sent_so_far(r)) and ev.get("fwd") != sent_so_far(r) else "gui:stall:%s") % s.get("pack")
                 evs = [json.loads(x) for x in r["run_events"]]
-                sent = [i for e in evs[:r["event_index_in_run"] + 1] if e["ev"] == "srv_record" for p in e["pdus"] if p[0] in ("bmp", "part2", "bmp3") for i in ([p[1], p[1] + 1, p[1] + 2] if p[0] == "bmp3" else [p[1]])]
+                sent = [i for e in evs[:r["event_index_in_run"] + 1] if e["ev"] == "srv_record" for p in e["pdus"] if p[0] in ("bmp", "part2", "bmp3", "obmp") for i in ([p[1], p[1] + 1, p[1] + 2] if p[0] == "bmp3" else [p[1]])]
                 what = "with the server silent only bitmaps %s of %s sent were forwarded (packing %s): a PDU already received waits for further server traffic" % (ev.get("fwd"), sent, s.get("pack"))
             else:
                 key = "gui:%s:%s" % (ev.get("ev"), r["what"] or "noaction")
